@@ -102,9 +102,11 @@ def rule_skipguard(ctx):
     need(len(cfr) == 1, R, "_gauc: _compare_frame_rankings call not found")
     norm = tm.sub(cfr[0].term, tm.const(1))
     inv = tm.sub(cfr[0].term, tm.const(0))
-    aug = [m for m in s.by_kind("mutate") if m.how == "aug"]
-    sc = [m for m in aug if m.root == "score" and symeval.pc_loops(m.pc)]
-    nf = [m for m in aug if m.root == "num_frames"]
+    aug = [m for m in s.by_kind("mutate") if m.how == "aug" and symeval.pc_loops(m.pc)]
+    # the two accumulators of the query loop, recognised by what they add (not by their names): the per-query
+    # contribution (a term of the inversion count) and the counter (+1)
+    sc = [m for m in aug if any(x is inv for x in tm.walk(m.val))]
+    nf = [m for m in aug if tm.is_const(m.val, 1) and m not in sc]
     need(len(sc) == 1 and len(nf) == 1, R, "_gauc: score / num_frames accumulation not found")
 
     def under_norm(m):
@@ -115,7 +117,7 @@ def rule_skipguard(ctx):
             if c[0] == "loop":
                 inside = True
             elif inside and c[0] == "if":
-                rel.append((c[1], c[2]))
+                rel.append(symeval._strip_not(c[1], c[2]))
         conds = rel
         # exactly the normaliser test: any further condition (an extra `continue` fast path) would drop queries that must score 0
         return len(conds) == 1 and conds[0][0] is norm and conds[0][1]
@@ -125,9 +127,23 @@ def rule_skipguard(ctx):
     v = sc[0].val
     good = v.op == "bin" and v.a[0] == "-" and tm.is_const(v.a[1], 1) and v.a[2].op == "bin" and v.a[2].a[0] == "/" and v.a[2].a[1] is inv and v.a[2].a[2] is norm
     yield ob(R, f, "hierarchy._gauc:contribution", good, "contribution is 1 - inversions / normalizer of that query")
-    need(len(s.returns) == 1, R, "_gauc: single return expected")
-    t = s.returns[0].term
-    good = t.op == "ite" and tm.is_const(t.a[2], 0) and t.a[1].op == "bin" and t.a[1].a[0] == "/" and t.a[1].a[2] is t.a[0]
+    mains = [r for r in s.returns if not is_lit(r.term)]
+    zeros = [r for r in s.returns if is_lit(r.term)]
+    need(len(mains) == 1 and len(zeros) <= 1, R, "_gauc: one formula return (and at most one constant return) expected")
+    t = mains[0].term
+    if not zeros:
+        good = t.op == "ite" and (tm.is_const(t.a[2], 0) or tm.is_const(t.a[1], 0))
+        if good:
+            quo = t.a[1] if tm.is_const(t.a[2], 0) else t.a[2]
+            good = quo.op == "bin" and quo.a[0] == "/" and quo.a[2] is t.a[0]
+    else:
+        # `if not num_frames: return 0.0` followed by `return score / num_frames`
+        good = t.op == "bin" and t.a[0] == "/" and lit(zeros[0].term) == 0
+        if good:
+            den = t.a[2]
+            zc = [(c, p) for c, p in symeval.pc_conds(zeros[0].pc)]
+            mc = [(c, p) for c, p in symeval.pc_conds(mains[0].pc)]
+            good = any(c is den and not p for c, p in zc) and any(c is den and p for c, p in mc)
     yield ob(R, f, "hierarchy._gauc:mean-under-num-frames", good, "the mean over counted queries is taken only when num_frames is non-zero, else the score is 0")
     # query loop covers every frame
     lid = symeval.pc_loops(sc[0].pc)[0]
